@@ -149,6 +149,33 @@ def run_one(ctx, rng, cands, d, status):
             ctx.violation('pipe-mode-exit', 'exit %d: %s' % (r.returncode, r.stderr.decode('utf-8', 'replace')[-300:]), dict(case, mode='-p'))
             return
         differs(normalise(r.stdout.decode('utf-8')), 'pipe mode', {'mode': '-p'})
+        if rng.random() < 0.3:
+            # standard input is not always an anonymous pipe: the remote end of `... | ssh host wayland-debug -p`, socat, inetd hand over a socket
+            import socket
+            import threading
+            a, b = socket.socketpair()
+
+            def feed(sock=a, data=data):
+                try:
+                    sock.sendall(data)
+                    sock.shutdown(socket.SHUT_WR)
+                except OSError:
+                    pass
+            th = threading.Thread(target=feed, daemon=True)
+            th.start()
+            try:
+                r = subprocess.run(main + ['-p'], stdin=b.fileno(), stdout=subprocess.PIPE, stderr=subprocess.PIPE, timeout=300, env=e2)
+            finally:
+                th.join(timeout=10)
+                a.close()
+                b.close()
+            ctx.ev()
+            ctx.count('processes')
+            ctx.count('pipe_mode_runs_on_a_socket')
+            if r.returncode != 0:
+                ctx.violation('pipe-mode-exit', 'standard input a socket: exit %d: %s' % (r.returncode, r.stderr.decode('utf-8', 'replace')[-300:]), dict(case, mode='-p (socket)'))
+                return
+            differs(normalise(r.stdout.decode('utf-8')), 'pipe mode, standard input a socket', {'mode': '-p (socket)'})
         # ---- run mode, two schedules ---------------------------------------------------------------------------------
         for rep in range(2):
             chunks, sname = gen_schedule(rng, data)
